@@ -30,7 +30,7 @@ class SocketIO:
         while len(buf) < numbytes:
             t = self.sock.recv(numbytes - len(buf))
             if not t:
-                raise EOFError
+                raise EOFError("expected %d bytes, got %d" % (numbytes, len(buf)))
             buf += t
         return buf
 
